@@ -399,3 +399,9 @@ def u_helpers(ip):
 from contracts.c01 import register_cache_core  # noqa: E402
 
 register_cache_core("C02")
+
+# a hyper-parameter given as a plain literal lives in an anonymous Value node that can be assigned: what is computed from it (the distribution's
+# log-density, the totals) follows - the invariant of C01 for a kind of input that no graph shape of C01 has (same harness, registered under C01)
+from pyvc.unit import reuse as _reuse  # noqa: E402
+
+_reuse("C02.literal_hyperparameter_reassigned", "C01.literal_hyperparameter_reassigned", "C01")
